@@ -58,6 +58,8 @@ def tag_value_verdict(dt, v):
         return (INVALID, "empty value")
     if not fm(dt, v):
         return (INVALID, "syntax:" + dt)
+    if dt in "ifBJ" and _HUGE.search(v):
+        return (UNSPEC, "number beyond the conversion limit of the interpreter")
     if dt == "J":
         try:
             val = json.loads(v)
@@ -231,9 +233,14 @@ def split_doc(text):
 
 
 # ---------------------------------------------------------------- line recogniser
+_HUGE = re.compile(r"[0-9]{4000,}")
+
+
 def _field_verdict(kind, s):
     if "\n" in s or "\t" in s:
         return (INVALID, "newline/tab in field")
+    if kind in ("slen", "pos1", "pos2", "int", "optint", "cigar1", "cigar1_list", "aln2") and _HUGE.search(s):
+        return (UNSPEC, "integer beyond the conversion limit of the interpreter")
     if kind == "slen":
         if fm("pos1", s):
             return (VALID, None)
